@@ -126,6 +126,11 @@ pub trait Prop: Sync {
     fn owns_crash(&self) -> bool {
         false
     }
+    /// Failures whose very subject is wall-clock time (a stop reason that claims a time limit was exceeded) cannot be
+    /// expected to replay identically; they are reported without the replay-twice rule.
+    fn replay_exempt(&self, _f: &Failure) -> bool {
+        false
+    }
     /// Build configurations in which executions that could not be evaluated because the library panicked
     /// ("aborted") are tolerated and only counted.  Everywhere else an aborted execution is reported as a
     /// violation of the property under check (kind `no-answer`): every property quantifies over operation
@@ -189,6 +194,9 @@ pub fn install_panic_hook() {
                 short.push(c);
                 last_digit = false;
             }
+        }
+        if std::env::var("MC_SHOW_PANICS").is_ok() {
+            eprintln!("panic at {:?}: {first}", i.location());
         }
         LAST_PANIC.with(|l| *l.borrow_mut() = format!("{file}: {short}"));
     }));
@@ -812,7 +820,7 @@ pub fn check_main(prop: &dyn Prop, tier: Tier, verif_root: &Path) -> i32 {
         // replay-twice rule
         let bin = bin_for_cfg(cfg);
         let segname = results.iter().find(|r| &r.cfg == cfg).map(|r| r.segs[*seg].name.clone()).unwrap_or_default();
-        if f.kind != "crash" {
+        if f.kind != "crash" && !prop.replay_exempt(f) {
             let a = replay_once(&bin, id, tier, cfg, *seg, *idx);
             let b = replay_once(&bin, id, tier, cfg, *seg, *idx);
             let kind_json = format!("\"kind\":{}", serde_json::to_string(&f.kind).unwrap());
